@@ -11,7 +11,7 @@ EXPLANATION = (
     "(extend/push_str of those, one final trim_end). R20.2 UTF-8 boundary provenance of every string slice in "
     "find_words_ascii_space (char_indices indices of the same line) and StyledStr::wrap (offsets of sub-slices yielded by "
     "iter_text). R20.3 PANIC/P9 over textwrap/* and StyledStr::wrap. R20.4 display_width skips from an ASCII control "
-    "character to the next `m` and otherwise sums per-char widths. NOT decided: the width bound and word order for all "
+    "character to the next `m` and otherwise sums per-char widths. R20.5 break placement: \"\\n\" is inserted only for i != 0 and hard_width < line_width + word_width, and line_width is reset before the carried-over indent is re-emitted and counted. NOT decided: the width bound and word order for all "
     "strings and widths (needs execution)."
 )
 TRUSTED = ["rustc MIR", "clapfacts", "lib/panics.py", "audit/panic.tsv", "anstream::adapter::strip_str yields sub-slices of its input in order"]
@@ -102,6 +102,26 @@ def run(ctx):
                   "StyledStr::wrap extends the output with %s" % e[:120])
     res.floor("R20.1", "extend in StyledStr::wrap", len(exs), 1)
     res.check(not sw.calls_to(r"String::(remove|truncate|clear|drain|pop|retain|replace_range)$"), "R20.1", "styled-wrap-no-removal", sw.where(), "no destructive String op", "StyledStr::wrap removes text from its output buffer")
+
+    # ---- R20.5 break placement and width accounting (necessary for the width bound / for breaking only between words)
+    nl = [c for c in ins if expr(lw, c.args[2]) == "'\\n'"]
+    res.floor("R20.5", "newline insertion", len(nl), 1)
+    for c in nl:
+        cf = cmp_facts(lw, c.bb)
+        ok1 = ("Ne", "i", "0") in cf or ("Gt", "i", "0") in cf
+        ok2 = any(o == "Lt" and a == "self.hard_width" and re.match(r"^Add\(self\.line_width,", b_) for (o, a, b_) in cf)
+        res.check(ok1, "R20.5", "break-only-between-words", c.where(), "a break is inserted only before a word that is not the first of the list (i != 0)",
+                  "a line break can be inserted before the first word of a chunk (guards %s): text glued to the previous chunk would be split" % sorted(x for x in cf if x[0] in ("Ne", "Gt"))[:3])
+        res.check(ok2, "R20.5", "break-only-when-too-wide", c.where(), "break only when hard_width < line_width + word_width", "break condition no longer compares hard_width with line_width + word_width")
+    zero = [(i, j) for i, j, s_ in lw.stmts() if s_["k"] == "assign" and not isinstance(s_["place"], int) and any(isinstance(el, str) and el.startswith(".line_width@") for el in s_["place"][1:]) and s_["rv"]["k"] == "use" and op_int(s_["rv"]["op"]) == 0]
+    res.floor("R20.5", "line_width reset in wrap", len(zero), 1)
+    car = [c for c in ins if "carryover" in expr(lw, c.args[2])]
+    for (zi, zj) in zero:
+        okz = all(lw.block_dominates(zi, c.bb) and zi != c.bb or (zi == c.bb) for c in nl) and all(lw.block_dominates(zi, c.bb) and not lw.reaches(c.bb, zi, without_blocks=()) or lw.block_dominates(zi, c.bb) for c in car)
+        # the reset must come BEFORE the carry-over width is added: no path from the carry-over insertion back to the reset within the same iteration
+        after = any(c.target is not None and zi in lw.reachable(c.target, without_blocks=tuple(x.bb for x in lw.calls_to(r"Vec::len$|\[T\]::len$"))) and not lw.block_dominates(zi, c.bb) for c in car)
+        res.check(okz and not after and all(lw.block_dominates(zi, c.bb) for c in car + nl), "R20.5", "width-reset-before-indent", "%s bb%d" % (lw.where(), zi),
+                  "line_width = 0 precedes the re-emitted indent (whose width is then added)", "line_width is reset after the carried-over indent was inserted: the indent is not counted in the new line's width")
 
     # ---- R20.2 boundary provenance (slices)
     fw = fx.bodies(r"^clap_builder::output::textwrap::word_separators::find_words_ascii_space")
